@@ -62,6 +62,21 @@ def san_summary(out):
     return m.group(1) if m else out[-300:]
 
 
+def observe(ctx, op, reasons, what, line):
+    """OBSERVED ONLY: behaviour outside the statement of C19 (level names, default streams, formatter
+    functions, level_stream sinks, parameters, accessors, macro laziness).  The judge disagrees with
+    the recorded event, but this is never a rejected event / VIOLATION: it is counted and written to
+    the evidence (coverage.observations) and reported in docs/notes_C19.md."""
+    sig = "C19:%s:%s(observed-only)" % (op, "+".join(reasons))
+    counts = ctx.extra.setdefault("observation_counts", {})
+    counts[sig] = counts.get(sig, 0) + 1
+    obs = ctx.extra.setdefault("observations", [])
+    if counts[sig] <= 3 and len(obs) < 60:
+        obs.append({"signature": sig, "from": what, "event": line[:600],
+                    "note": "outside the statement of property C19: observation, not a verdict"})
+        vlib.log("OBSERVED (outside the statement of C19, no verdict): %s: %s" % (sig, line[:200]))
+
+
 def judge_trace_small(ctx, path, max_lines=6000, workers=8):
     """Like vlib.judge_trace, but with chunks of <= max_lines lines (cut at history boundaries), a 2 GB
     heap per TLC process and at most `workers` processes at a time: the read-back makes C19 events
@@ -106,7 +121,7 @@ def judge_trace_small(ctx, path, max_lines=6000, workers=8):
     return sorted(bad, key=lambda b: b["l"])
 
 
-def judge_seq(ctx, path, what, rc, out):
+def judge_seq(ctx, path, what, rc, out, record_args=None):
     lines, tail = vlib.check_trace_file(path)
     lines = [x for x in lines if not x.startswith('{"e":"crash"')]
     if rc != 0:
@@ -130,22 +145,35 @@ def judge_seq(ctx, path, what, rc, out):
         return []
     bad = judge_trace_small(ctx, path)
     ctx.evaluations += len(lines)
+    ctx.c19_flagged = set(b["l"] for b in bad)       # lines the judge disagreed with (verdict or observation)
     for b in bad:
-        if "HARNESS-PRECONDITION" in b["why"] or b["op"] == "?":
+        why, obs = sorted(b.get("why", [])), sorted(b.get("obs", []))
+        if "HARNESS-PRECONDITION" in why or b["op"] == "?":
             raise vlib.Infra("harness emitted an event outside the driver preconditions / unknown to the judge at "
                              "line %d of %s" % (b["l"], path))
+        if obs:
+            observe(ctx, b["op"], obs, what, lines[b["l"] - 1])
+        if not why:
+            continue
         hist = vlib.history_of(lines, b["l"])
         ev = json.loads(lines[b["l"] - 1])
-        ctx.reject("C19:%s:%s" % (b["op"], "+".join(sorted(b["why"]))),
-                   "%s: spec cannot explain %s (%s); event: %s" % (what, b["op"], ",".join(sorted(b["why"])),
-                                                                   lines[b["l"] - 1][:500]),
-                   {"script": script_of(hist), "event": ev})
+        payload = {"script": script_of(hist), "event": ev}
+        if ev.get("e") == "rec":
+            payload = {"record": record_args, "event": ev}
+        ctx.reject("C19:%s:%s" % (b["op"], "+".join(why)),
+                   "%s: spec cannot explain %s (%s); event: %s" % (what, b["op"], ",".join(why), lines[b["l"] - 1][:500]),
+                   payload)
     return lines
 
 
 def count_seq(ctx, lines):
     for x in lines:
         e = json.loads(x)
+        if e.get("e") == "rec":
+            f = e["f"]
+            ctx.count_class(("rec", f, e.get("l", -1), e.get("has", None), e.get("ok", None), len(e.get("steps", []))))
+            ctx.extra.setdefault("record_counts", {})[f] = ctx.extra.setdefault("record_counts", {}).get(f, 0) + 1
+            continue
         if e.get("e") != "op":
             continue
         op = e["op"]
@@ -310,24 +338,98 @@ def expect_violations(ctx, guards):
 
 
 def judge_guards(ctx, seq_lines, conc_lines):
-    """The judges themselves must be able to reject: corrupted copies of accepted traces."""
-    # sequential: first history, alter one read-back level of the last event and one emitted text
-    hist = []
-    for x in seq_lines:
-        if x.startswith('{"e":"reset"') and hist:
-            if any('"op":"set"' in y for y in hist) and len(hist) > 4:
-                break
-            hist = []
-        hist.append(x)
-    ev = json.loads(hist[-1])
-    ev["lv"][0] = 9        # not a level at all: cannot be explained by any history
-    p = os.path.join(ctx.workdir, "guard_seq.ndjson")
-    with open(p, "w") as f:
-        f.write("\n".join(hist[:-1] + [json.dumps(ev, separators=(",", ":"))]) + "\n")
-    r = vlib.tlc("LogTrace", "LogTrace.cfg", workers=1, env={"TRACE": p})
-    v = vlib._verdict_lines(r.out).get("VERDICT", [])
-    if not v or not v[-1]["bad"] or "levels" not in v[-1]["bad"][-1]["why"]:
-        raise vlib.Infra("judge vacuity guard: a corrupted sequential trace was accepted")
+    """The judges themselves must be able to disagree: for every kind of reason a copy of an accepted
+    trace with ONE recorded field corrupted must be rejected with that reason (in scope: `why`,
+    observed only: `obs`)."""
+    flagged = getattr(ctx, "c19_flagged", set())
+
+    def first(pred):
+        for i, x in enumerate(seq_lines):
+            if pred(x) and (i + 1) not in flagged:      # only events the judge accepted are corrupted
+                try:
+                    e = json.loads(x)
+                except ValueError:
+                    continue
+                return i, e
+        return None, None
+
+    def bump(cps):
+        return [cps[0] + 1] + cps[1:] if cps else [33]
+
+    def c_lv(e): e["lv"][0] = 9
+    def c_ret(e): e["ret"] = 9
+    def c_rb(e): e["rb"] = not e["rb"]
+    def c_out_drop(e): e["out"] = [[]] * 6
+    def c_out_text(e):
+        e["out"] = [bump(o) if o else o for o in e["out"]]
+    def c_out_route(e): e["out"] = e["out"][1:] + e["out"][:1]
+    def c_ev(e): e["ev"] = 1
+    def c_si(e): e["si"] = (e["si"] + 1) % 6
+    def c_ft(e): e["ft"] = bump(e["ft"])
+    def c_lss(e): e["lss"] = False
+    def c_dlog_text(e):
+        if e["clog"]:
+            e["clog"] = bump(e["clog"])
+        else:
+            e["cerr"] = bump(e["cerr"])
+    def c_dlog_route(e): e["clog"], e["cerr"] = e["cerr"], e["clog"]
+    def c_r(e): e["r"] = bump(e["r"])
+    def c_s(e): e["s"] = bump(e["s"])
+    def c_from(e): e["r"] = (e["r"] + 1) % 7
+    def c_which(e): e["which"] = 1 - e["which"] if e["which"] < 2 else 0
+    def c_res(e): e["res"][0]["k"] = e["res"][0]["k"] + 1
+    def c_rname(e): e["rname"] = bump(e["rname"])
+    def c_ok(e): e["ok"] = not e["ok"]
+    def c_ts(e): e["r"] = list(e["t"])      # the stamp dropped
+
+    cases = [   # (field, predicate on the line, corruption, expected reason)
+        ("why", lambda x: '"op":"set"' in x, c_lv, "levels"),
+        ("why", lambda x: '"op":"get"' in x, c_ret, "returned-level"),
+        ("why", lambda x: '"op":"enabled"' in x, c_rb, "enabled-decision"),
+        ("why", lambda x: '"op":"log"' in x and '"out":[[],[],[],[],[],[]]' not in x, c_out_drop, "emitted-iff-enabled"),
+        ("why", lambda x: '"op":"log"' in x and '"out":[[],[],[],[],[],[]]' not in x, c_out_text, "text"),
+        ("why", lambda x: '"f":"dlog"' in x and ('"clog":[]' not in x or '"cerr":[]' not in x), c_dlog_text, "default-log"),
+        ("obs", lambda x: '"f":"dlog"' in x and ('"clog":[]' not in x or '"cerr":[]' not in x), c_dlog_route, "default-log-routing"),
+        ("obs", lambda x: '"op":"log"' in x and '"out":[[],[],[],[],[],[]]' not in x, c_out_route, "level-sink-routing"),
+        ("obs", lambda x: '"op":"logm"' in x and '"ev":0' in x, c_ev, "macro-laziness"),
+        ("obs", lambda x: '"op":"acc"' in x, c_si, "accessor-level-sink"),
+        ("obs", lambda x: '"op":"acc"' in x, c_ft, "accessor-formatter"),
+        ("obs", lambda x: '"op":"acc"' in x, c_lss, "accessor-level-streams"),
+        ("obs", lambda x: '"f":"to_string"' in x, c_s, "level-name"),
+        ("obs", lambda x: '"f":"from_string"' in x, c_from, "level-from-name"),
+        ("obs", lambda x: '"f":"input"' in x and '"ok":true' in x, c_ok, "level-input"),
+        ("obs", lambda x: '"f":"default_stream"' in x, c_which, "default-stream"),
+        ("obs", lambda x: '"f":"dls"' in x, c_which, "default-level-streams"),
+        ("obs", lambda x: '"f":"chain"' in x and '"has":true' in x, c_r, "format-chain"),
+        ("obs", lambda x: '"f":"fmt"' in x, c_r, "format-function"),
+        ("obs", lambda x: '"f":"time_stamp"' in x, c_ts, "time-stamp"),
+        ("obs", lambda x: '"f":"params"' in x, c_rname, "parameters"),
+        ("obs", lambda x: '"f":"level_stream"' in x, c_res, "level-stream-sink"),
+    ]
+
+    def one(k):
+        field, pred, corrupt, reason = cases[k]
+        i, e = first(pred)
+        if e is None:
+            return reason, None
+        corrupt(e)
+        hist = vlib.history_of(seq_lines, i + 1)
+        if not hist[0].startswith('{"e":"reset"'):      # a record before the first history: judged on its own
+            hist = [hist[-1]]
+        p = os.path.join(ctx.workdir, "guard_seq_%d.ndjson" % k)
+        with open(p, "w") as f:
+            f.write("\n".join(hist[:-1] + [json.dumps(e, separators=(",", ":"))]) + "\n")
+        r = vlib.tlc("LogTrace", "LogTrace.cfg", workers=1, env={"TRACE": p}, xmx="1g", tag="LogTrace_g")
+        os.unlink(p)
+        v = vlib._verdict_lines(r.out).get("VERDICT", [])
+        ok = bool(v) and bool(v[-1]["bad"]) and reason in v[-1]["bad"][-1].get(field, [])
+        return reason, ok
+
+    res = vlib.parallel(one, list(range(len(cases))), workers=8)
+    failed = [r for r, ok in res if ok is False]
+    if failed:
+        raise vlib.Infra("judge vacuity guard: corrupted sequential traces were accepted for %s" % failed)
+    nconc = 0
     # concurrent: first run, alter the result of one get
     run = split_runs(conc_lines)[0]
     idx = [i for i, x in enumerate(run) if x.startswith('{"e":"b"') and '"op":"get"' in x]
@@ -341,7 +443,10 @@ def judge_guards(ctx, seq_lines, conc_lines):
         stuck, _ = tlc_conc(p)
         if not stuck:
             raise vlib.Infra("judge vacuity guard: a corrupted concurrent history was accepted")
-    ctx.extra.setdefault("vacuity_guards", []).append({"judge": "LogTrace", "corrupted_traces_rejected": 2 if idx else 1})
+        nconc = 1
+    ctx.extra.setdefault("vacuity_guards", []).append(
+        {"judge": "LogTrace", "corrupted_fields_rejected": [r for r, ok in res if ok], "not_exercised": [r for r, ok in res if ok is None],
+         "corrupted_concurrent_histories_rejected": nconc})
 
 
 # ----------------------------------------------------------------------------- main
@@ -349,6 +454,11 @@ def judge_guards(ctx, seq_lines, conc_lines):
 
 def run(ctx):
     thorough = ctx.tier == "thorough"
+    # development aid: VERIF_C19_PHASES=seq skips the model checking and the threaded phases (used to
+    # triage mutants of sequential-only features quickly); never set in a real run
+    only_seq = os.environ.get("VERIF_C19_PHASES") == "seq"
+    if only_seq:
+        return run_seq_only(ctx)
     t0 = [time.time()]
     timing = ctx.extra.setdefault("phase_wall_s", {})
 
@@ -362,6 +472,8 @@ def run(ctx):
 
     # 1. the specifications themselves (thorough: the small configurations with -coverage, every action
     #    must have been taken; the larger configurations without it - coverage mode is several times slower)
+    for mod, cfg in (("LogFormatMC", "MC_LogFormat.cfg"), ("LogFormatMC", "MC_LogFormatLs.cfg")):
+        vlib.tlc_mc(ctx, mod, cfg, workers=2)
     for mod, cfg in (("LogContext", "MC_LogContext.cfg"), ("LogContextConc", "MC_LogContextConc.cfg")):
         r = vlib.tlc_mc(ctx, mod, cfg, workers=8, coverage=thorough, timeout=1800)
         if thorough:
@@ -383,6 +495,12 @@ def run(ctx):
         ("LogContextConc", "MC_LogContextConc_droplock_lpw.cfg", "LPWWhenFree",
          "find_child without the lock_guard: a child created during a set keeps the old level"),
         ("LogContextConc", "MC_LogContextConc_cached.cfg", "LockFreeReadOK", "object::level returns the level cached at creation"),
+        ("LogContextConc", "MC_LogContextConc_droplock_born.cfg", "NewChildLevelOK",
+         "find_child without the lock_guard: a new child gets a level LatestPrefixWins does not assign"),
+        ("LogContextConc", "MC_LogContextConc_stale.cfg", "NewChildLevelOK",
+         "find_child loads the parent's level before taking the lock (no data race, mutual exclusion intact)"),
+        ("LogFormatMC", "MC_LogFormat_swapbug.cfg", "ChainOrder", "format::chain composes child (.) parent"),
+        ("LogFormatMC", "MC_LogFormatLs_sinkbug.cfg", "SinkLatestWins", "level_stream::sink has no effect"),
         ("LogContextConc", "MC_LogContextConc_joint.cfg", "JointSequential",
          "NOT a defect: the strong joint reading of two lock-free reads is false by design (pre-order, node-by-node "
          "publication) and is not claimed; TLC must refute it"),
@@ -418,17 +536,20 @@ def run(ctx):
     nh, ml = (10000, 60) if thorough else (300, 60)
     tpath = os.path.join(ctx.workdir, "recorded.ndjson")
     rc, out = vlib.run_harness(asan_bin, ["record", tpath, ctx.seed, nh, ml], timeout=3000)
-    seq_lines = judge_seq(ctx, tpath, "random history", rc, out)
+    seq_lines = judge_seq(ctx, tpath, "random history", rc, out, record_args=[ctx.seed, nh, ml])
     ctx.traces_validated += nh
     count_seq(ctx, seq_lines[:300000])
-    if len(seq_lines) > 3:
-        e = json.loads(seq_lines[2])
+    ops = [x for x in seq_lines[:400] if x.startswith('{"e":"op"')]
+    recs = [x for x in seq_lines[:400] if x.startswith('{"e":"rec"')]
+    if ops:
+        e = json.loads(ops[min(2, len(ops) - 1)])
         ctx.sample({"recorded_event": {k: e[k] for k in e if k != "lv"}, "lv_len": len(e["lv"])})
-
+    if recs:
+        ctx.sample({"recorded_call": json.loads(recs[len(recs) // 2])})
     phase("record+judge-sequential")
     # 5. threaded driver: linearisation (ASan build) and ThreadSanitizer
     seeds = [ctx.seed * 100 + i for i in range(4 if thorough else 1)]
-    runs, windows = (125, 20) if thorough else (50, 20)
+    runs, windows = (250, 10) if thorough else (300, 10)      # short runs: fresh trees, so that node creation keeps racing with set
     conc_first = None
     for sd in seeds:
         path, rc, info = run_threaded(ctx, asan_bin, "asan", sd, runs, windows, 6, "s%d" % sd)
@@ -443,7 +564,7 @@ def run(ctx):
     tsan_windows = 0
     for sd in seeds:
         for mc in (30, 6):
-            truns = max(10, runs // 2)
+            truns = max(10, runs // 3)
             path, rc, info = run_threaded(ctx, tsan_bin, "tsan", sd, truns, windows, mc, "s%d_%d" % (sd, mc))
             tsan_windows += truns * windows
     ctx.extra["tsan_windows_run"] = tsan_windows
@@ -451,7 +572,9 @@ def run(ctx):
 
     phase("tsan")
     # 6. the judges can reject
-    if seq_lines and conc_first:
+    # (only on a run without rejections: the guards corrupt ACCEPTED traces; with violations already
+    #  found the verdict must stay exit 1, never turn into an infrastructure failure)
+    if seq_lines and conc_first and not ctx.violations:
         judge_guards(ctx, seq_lines, conc_first)
 
     phase("judge-guards")
@@ -467,6 +590,18 @@ def run(ctx):
         "LogContextConc.tla is a hand transcription of context.cpp; verdicts about the code are taken only from recorded executions judged by LogContext.tla/LogTrace.tla",
         "fcppt.log built with ENABLE_THREADS (the CMake default); names are non-empty; every object is used only by the thread that created it (documented restriction); log() is not driven concurrently (the sinks are caller-supplied streams)",
     ]
+
+
+def run_seq_only(ctx):
+    asan_bin = build("asan")
+    tpath = os.path.join(ctx.workdir, "recorded.ndjson")
+    rc, out = vlib.run_harness(asan_bin, ["record", tpath, ctx.seed, 300, 60], timeout=3000)
+    seq_lines = judge_seq(ctx, tpath, "random history", rc, out, record_args=[ctx.seed, 300, 60])
+    ctx.traces_validated += 300
+    count_seq(ctx, seq_lines)
+    ctx.sample({"note": "VERIF_C19_PHASES=seq: development run, sequential record+judge only"})
+    ctx.mc_runs.append({"module": "-", "cfg": "-", "generated": 1, "distinct": 1, "depth": 0, "wall_s": 0, "ok": True, "cmd": "skipped (VERIF_C19_PHASES=seq)", "simulate": None})
+    ctx.rule = "development run: sequential histories only"
 
 
 def replay(ctx, payload):
@@ -500,6 +635,14 @@ def replay(ctx, payload):
             if ctx.violations:
                 return
         print("NOTE the threaded run was re-executed 3 times on %s without a rejection" % vlib.REPO)
+        return
+    if "record" in p:
+        binary = build("asan")
+        a = p["record"]
+        tpath = os.path.join(ctx.workdir, "replay_recorded.ndjson")
+        rc, out = vlib.run_harness(binary, ["record", tpath, a[0], a[1], a[2]], timeout=3000)
+        judge_seq(ctx, tpath, "re-recorded histories", rc, out, record_args=a)
+        ctx.traces_validated += int(a[1])
         return
     binary = build("asan")
     spath = os.path.join(ctx.workdir, "replay_script.ndjson")
